@@ -119,4 +119,11 @@ def scanAll (fx : Bool) (m : Meta) (numRows : Nat) (rest : Bytes) : ROut :=
   if destLen m > destCap then (if numRows = 0 then .ok 0 else .err 0)
   else scanLoop fx m.cols (destLen m) numRows 0 rest
 
+/-- parse a RESULT frame body and, when it is a ROWS result, iterate it as conn.executeQuery +
+`for iter.Scan(dest...) {}` do; `none` when the frame is not a ROWS result (or does not parse) -/
+def iterate (fx : Bool) (proto flags : Nat) (body : Bytes) : Option ROut :=
+  match parseFrame fx proto true flags 8 body with
+  | .ok (.rows m n) st => some (scanAll fx m n st.buf)
+  | _ => none
+
 end RowsCrash
